@@ -109,6 +109,7 @@ int rep_collect(const run_res_t *r, const char *harness, const void *job, size_t
 		if (!strcmp(cls, "replay-divergence") || !strcmp(cls, "unmodelled")) rep_infra("%s: %s (%s)", cls, tab ? tab + 1 : "", human ? human : "");
 		else { rep_violation(cls, tab ? tab + 1 : "", harness, job, n, human); k++; }
 	}
+	for (int i = 0; (l = res_line(r, 'C', i)); i++) { char key[64]; long v; if (sscanf(l, "%63s %ld", key, &v) == 2) rep_count(key, v); }
 	if ((l = res_line(r, 'E', 0))) rep_infra("child: %s (%s)", l, human ? human : "");
 	if (r->status == 1 || r->status == 3) {
 		if (k == 0) {
